@@ -16,6 +16,21 @@ pub mod layout {
     macro_rules! print {
         ($($t:tt)*) => { crate::seams::emit(format_args!($($t)*), false) };
     }
+    macro_rules! eprintln {
+        () => { crate::seams::emit_err(format_args!("")) };
+        ($($t:tt)*) => { crate::seams::emit_err(format_args!($($t)*)) };
+    }
+    macro_rules! eprint {
+        ($($t:tt)*) => { crate::seams::emit_err(format_args!($($t)*)) };
+    }
+    macro_rules! dbg {
+        () => { crate::seams::emit_err(format_args!("")) };
+        ($v:expr $(,)?) => { match $v { t => { crate::seams::emit_err(format_args!("{:?}", &t)); t } } };
+        ($($v:expr),+ $(,)?) => { ($(dbg!($v)),+,) };
+    }
+    macro_rules! thread_local {
+        ($($t:tt)*) => { shuttle::thread_local!{ $($t)* } };
+    }
     // the programs are compiled inside the harness crate: compile-time crate paths must still
     // point at the crate they belong to
     macro_rules! env {
@@ -24,7 +39,8 @@ pub mod layout {
     }
     include!(concat!(env!("OUT_DIR"), "/generate_layout.rs"));
     pub fn run() {
-        super::MainReturn::finish(main())
+        super::MainReturn::finish(main());
+        crate::seams::main_returned();
     }
 }
 
@@ -40,6 +56,21 @@ pub mod likely {
     macro_rules! print {
         ($($t:tt)*) => { crate::seams::emit(format_args!($($t)*), false) };
     }
+    macro_rules! eprintln {
+        () => { crate::seams::emit_err(format_args!("")) };
+        ($($t:tt)*) => { crate::seams::emit_err(format_args!($($t)*)) };
+    }
+    macro_rules! eprint {
+        ($($t:tt)*) => { crate::seams::emit_err(format_args!($($t)*)) };
+    }
+    macro_rules! dbg {
+        () => { crate::seams::emit_err(format_args!("")) };
+        ($v:expr $(,)?) => { match $v { t => { crate::seams::emit_err(format_args!("{:?}", &t)); t } } };
+        ($($v:expr),+ $(,)?) => { ($(dbg!($v)),+,) };
+    }
+    macro_rules! thread_local {
+        ($($t:tt)*) => { shuttle::thread_local!{ $($t)* } };
+    }
     // the programs are compiled inside the harness crate: compile-time crate paths must still
     // point at the crate they belong to
     macro_rules! env {
@@ -48,7 +79,8 @@ pub mod likely {
     }
     include!(concat!(env!("OUT_DIR"), "/generate_likelysubtags.rs"));
     pub fn run() {
-        super::MainReturn::finish(main())
+        super::MainReturn::finish(main());
+        crate::seams::main_returned();
     }
 }
 
@@ -60,10 +92,19 @@ pub trait MainReturn {
 impl MainReturn for () {
     fn finish(self) {}
 }
-impl<E: std::fmt::Debug> MainReturn for Result<(), E> {
+impl<T: MainReturn, E: std::fmt::Debug> MainReturn for Result<T, E> {
     fn finish(self) {
-        if let Err(e) = self {
-            panic!("main returned Error: {:?}", e);
+        match self {
+            Ok(t) => t.finish(),
+            Err(e) => panic!("main returned Error: {:?}", e),
+        }
+    }
+}
+impl MainReturn for std::process::ExitCode {
+    fn finish(self) {
+        // ExitCode is opaque; its Debug form is stable enough to tell success from failure
+        if format!("{:?}", self) != format!("{:?}", std::process::ExitCode::SUCCESS) {
+            panic!("main returned a failure exit code: {:?}", self);
         }
     }
 }
